@@ -76,6 +76,15 @@ def run_case(spec, ctx):
     data = uni.make_data(spec['data'])
     where.update(data=spec['data']['kind'], n=len(data))
     model = uni.build(ms, data)
+    if spec['data']['seed'] % 3 == 0:
+        # the object has a past: fitted on data of another scale and queried (lazily filled caches!)
+        from vmon import fingerprint as fpr
+        past = uni.make_data({'kind': 'normal', 'n': 60, 'seed': spec['data']['seed'] + 7}) * 50 + 1000
+        np.random.seed(3)
+        if ctx.call(model.fit, past)[0]:
+            fpr.univariate(model, past)
+            model.set_random_state(None)
+        where['refitted'] = True
     np.random.seed(spec['data']['seed'] % (2 ** 31))     # KDE(sample_size) / selection subsampling draw here
     ok, exc = ctx.call(model.fit, data)
     if not ok:
